@@ -9,6 +9,7 @@ import (
 
 	ks "github.com/libp2p/go-libp2p-kbucket/keyspace"
 	"github.com/libp2p/go-libp2p/core/peer"
+	ma "github.com/multiformats/go-multiaddr"
 
 	"github.com/libp2p/go-libp2p-kad-dht/netsize"
 	pb "github.com/libp2p/go-libp2p-kad-dht/pb"
@@ -109,6 +110,17 @@ func VfOptimisticProvide() {
 	ctx, cancel := context.WithCancel(context.Background())
 	defer cancel()
 	c := vfCid("content")
+	// two advertised addresses, one of which the address filter removes
+	e.host.addrs = []ma.Multiaddr{vfAddr(50), vfAddr(51)}
+	d.addrFilter = func(in []ma.Multiaddr) []ma.Multiaddr {
+		var out []ma.Multiaddr
+		for _, a := range in {
+			if !a.Equal(vfAddr(51)) {
+				out = append(out, a)
+			}
+		}
+		return out
+	}
 	slow := map[peer.ID]bool{}
 	fails := map[peer.ID]bool{}
 	var adds []vfSent
@@ -159,6 +171,9 @@ func VfOptimisticProvide() {
 			pp := s.msg.GetProviderPeers()
 			vfAssert(string(s.msg.GetKey()) == string(c.Hash()), "optprovide/announces-the-right-key")
 			vfAssert(len(pp) == 1 && peer.ID(pp[0].Id) == d.self && len(pp[0].Addrs) > 0, "optprovide/announcement-names-exactly-the-local-peer-with-addresses")
+			if len(pp) == 1 {
+				vfAssert(len(pp[0].Addrs) == 1 && string(pp[0].Addrs[0]) == string(vfAddr(50).Bytes()), "optprovide/announcement-carries-exactly-the-filter-passing-addresses")
+			}
 		}
 		vfAssert(n == 1, "optprovide/one-announcement-per-closest-peer")
 		if !fails[p] {
